@@ -298,6 +298,11 @@ func RDBCatalogue() []RDBCase {
 	add("hash/len252", "zipmap-len", false, &RValue{Type: 'h', Hash: hashOf("a", rep("v", 252), "b", "2")}, hashEncs(true))
 	add("hash/len253", "zipmap-len253", true, &RValue{Type: 'h', Hash: hashOf("a", rep("v", 253), "b", "2")}, hashEncs(true))
 	add("hash/len254", "zipmap-biglen", true, &RValue{Type: 'h', Hash: hashOf("a", rep("v", 254), rep("K", 300), "2", "c", "3")}, hashEncs(true))
+	var many []string
+	for i := 0; i < 300; i++ {
+		many = append(many, "f"+strconv.Itoa(i), strconv.Itoa(i*37-5000))
+	}
+	add("hash/pairs300", "count300", false, &RValue{Type: 'h', Hash: hashOf(many...)}, hashEncs(true))
 	// ---- streams
 	c = append(c, streamCases()...)
 	return c
